@@ -215,6 +215,45 @@ def check_message(ctx, case, toks, b, tag, converters=True):
         ctx.dist['wire-error-%d' % res[1]] += 1
 
 
+def cli_four_formats(ctx):
+    """command_encode accepts the four formats: decode [-a] [-j] to a file, encode [-a] [-j] it back, same bytes.
+    Messages with strings holding 8-bit characters, quotes and leading blanks (the text formats carry bytes literals)."""
+    import subprocess
+    import tempfile
+    msgs = []
+    for k, strs in enumerate([(b'Z\xc3\xbcrich', b'Ko\xe8elovice'), (b'P\xc5\x99imda', b"it's \"q\""), (b'  R17', b'plain'),
+                              (b'\xff\xfe\x80', b'\\n#x')]):
+        ids = [1015, 12001, 204004, 31021, 1019, 204000] if k % 2 else [1015, 12001, 101002, 1019]
+        vals = [[strs[0], 280.5 + k, 1, 2, strs[1]]] if k % 2 else [[strs[0], 280.5 + k, strs[1], strs[0]]]
+        try:
+            msgs.append(B.encode_message(ids, vals, False, 4, 33).serialized_bytes)
+        except Exception as e:
+            ctx.dist['cli-message-not-built-%d' % lib.err_code(e)] += 1
+    env = dict(os.environ, PYTHONPATH=lib.REPO, PYTHONHASHSEED='0')
+    os.makedirs(os.path.join(lib.VERIF, 'replays'), exist_ok=True)
+    with tempfile.TemporaryDirectory(prefix='c09cli_', dir=os.path.join(lib.VERIF, 'replays')) as d:
+        for k, b in enumerate(msgs):
+            src = os.path.join(d, 'm%d.bufr' % k)
+            open(src, 'wb').write(b)
+            for flags in ([], ['-j'], ['-a'], ['-a', '-j']):
+                txt = os.path.join(d, 'm%d%s.txt' % (k, ''.join(flags)))
+                out = os.path.join(d, 'm%d%s.out' % (k, ''.join(flags)))
+                r1 = subprocess.run(['/venv/bin/python', '-m', 'pybufrkit', 'decode'] + flags + [src], env=env,
+                                    stdout=subprocess.PIPE, stderr=subprocess.PIPE, timeout=120)
+                open(txt, 'wb').write(r1.stdout)
+                r2 = subprocess.run(['/venv/bin/python', '-m', 'pybufrkit', 'encode'] + flags + [txt, out], env=env,
+                                    stdout=subprocess.PIPE, stderr=subprocess.PIPE, timeout=120)
+                ctx.count(('cli', k, tuple(flags)), True)
+                ctx.dist['cli-roundtrip' + ''.join(flags)] += 1
+                got = open(out, 'rb').read() if os.path.exists(out) else None
+                if r1.returncode != 0 or r2.returncode != 0 or got != b:
+                    ctx.violation({'kind': 'C09-cli-encode', 'case': {'message_hex': b.hex(), 'flags': flags},
+                                   'rc': [r1.returncode, r2.returncode],
+                                   'stderr': (r1.stderr + r2.stderr + r2.stdout).decode('latin-1')[-300:],
+                                   'got': None if got is None else got.hex()[:200]},
+                                  'decode %s | encode %s does not give the message back' % (' '.join(flags), ' '.join(flags)))
+
+
 def run(ctx):
     ctx.rule = ('generated messages (templates with attributes on plain elements and on replication factors, chained '
                 'attributes, 221, zero-count replications, strings, flag tables) and sample files: the implementation wires '
@@ -297,6 +336,7 @@ def run(ctx):
                 ctx.dist['corpus-wire-error-%d' % lib.err_code(e)] += 1
             continue
         check_message(ctx, {'file': os.path.basename(f)}, toks, b, os.path.basename(f))
+    cli_four_formats(ctx)
     ctx.partial = ["flat text / nested text converters: line formats are exercised on the implementation, not modelled in Coq",
                    'labels_agree (an attribute is non-virtual exactly when its descriptor is an associated field) is a checked hypothesis of nested_to_flat_render']
     ctx.assumptions = ['repr / ast.literal_eval / str.format are exercised, not modelled']
